@@ -126,12 +126,227 @@ Proof.
       destruct w; cbn [b2z] in *; [specialize (H3 eq_refl); lia | specialize (H4 eq_refl)]; sqfin.
 Qed.
 
-Lemma model_trace_holds : forall cfg ops obs, run cfg ops = Some obs -> holds_b cfg ops obs = true.
+Lemma sem_trace_holds : forall c ops obs, run [0; c] ops = Some obs -> holds_b [0; c] ops obs = true.
 Proof.
-  intros cfg ops obs H. unfold run in H.
-  destruct cfg as [|z [|c [|? ?]]]; try discriminate; destruct z; try discriminate.
+  intros c ops obs H. unfold run in H.
   destruct ((0 <=? c) && (c <=? 4294967295)) eqn:E; [|discriminate]. injection H as <-.
   apply andb_true_iff in E. destruct E as [E1 _]. apply Z.leb_le in E1.
   unfold holds_b, clauses. apply (seq_run_holds ops (mksq c c false 0) 0).
   sqfin.
+Qed.
+
+(* ================= part D: Stop / GracefulStop ordering ================= *)
+Definition rinv (h : bool) (c : conn) (r : srpc) : Prop :=
+  (act r = true -> clst r = CNone /\ hs r <> HNone) /\
+  (hs r = HNone -> act r = false /\ clst r <> CNone) /\
+  (h = false -> cxl r = false /\
+     (hs r <> HNone -> act r = false -> exists st, hs r = HRet st /\ clst r = CHandler st)) /\
+  (c = CClosed -> act r = false) /\
+  (late r = true -> hs r = HNone) /\
+  (h = true -> (hs r = HRunning -> cxl r = true) /\ clst r <> CNone) /\
+  (forall st, clst r = CHandler st -> hs r = HRet st).
+
+Definition pinv (s : gst) (p : spc) : Prop :=
+  match p with
+  | P2 false | P3 _ => cn s = CClosed
+  | P4 g => cn s = CClosed /\ (g || wfhd s = true -> no_running (rs s))
+  | _ => True
+  end.
+
+Record GInv (s : gst) : Prop := mkGInv {
+  g_hard : hardc s = true -> cn s = CClosed;
+  g_rs : Forall (rinv (hardc s) (cn s)) (rs s);
+  g_ps : Forall (pinv s) (stops s)
+}.
+
+Lemma Forall_mid : forall (A : Type) (P : A -> Prop) l1 x l2,
+  Forall P (l1 ++ x :: l2) <-> Forall P l1 /\ P x /\ Forall P l2.
+Proof.
+  intros. rewrite Forall_app. split; intros [H1 H2]; [inversion H2; subst; auto | destruct H2; auto].
+Qed.
+
+Ltac rinv_solve :=
+  unfold rinv in *; cbn [hs cxl clst act late] in *;
+  repeat match goal with H : _ /\ _ |- _ => destruct H end;
+  repeat split; intros; subst; try congruence; try discriminate; auto;
+  try (match goal with H : ?x = ?x -> _ |- _ => specialize (H eq_refl) end).
+
+Ltac rgo r :=
+  destruct r; unfold rinv in *; cbn [hs cxl clst act late] in *; subst;
+  repeat match goal with b : bool |- _ => destruct b | x : hst |- _ => destruct x end;
+  intuition (try congruence; try discriminate; eauto);
+  try (match goal with H : forall st, ?c = CHandler st -> _, H' : ?c = CHandler _ |- _ =>
+         specialize (H _ H'); first [discriminate | congruence] end);
+  try (match goal with H : exists st, _ /\ _ |- _ => destruct H as [? [? ?]]; first [discriminate | congruence] end).
+
+Lemma pinv_weaken : forall s s', cn s' = cn s -> wfhd s' = wfhd s ->
+  (no_running (rs s) -> no_running (rs s')) -> forall p, pinv s p -> pinv s' p.
+Proof.
+  intros s s' Hc Hw Hn p H. destruct p as [g|g|g|g|g]; cbn [pinv] in *; rewrite ?Hc, ?Hw; auto.
+  destruct H as [H1 H2]. split; auto.
+Qed.
+
+Lemma ginv_step : forall s s', gstep s s' -> GInv s -> GInv s'.
+Proof.
+  intros s s' Hs [Hh Hr Hp]. destruct Hs.
+  - (* arrive *)
+    constructor; cbn [cn hardc wfhd rs stops]; auto.
+    + apply Forall_app. split; [exact Hr|]. constructor; [|constructor].
+      unfold arrive. destruct (cn s) eqn:Ec; destruct (hardc s) eqn:Eh;
+        try (specialize (Hh eq_refl); discriminate); rinv_solve.
+    + eapply Forall_impl; [|exact Hp]. intros p Hpp.
+      destruct p as [g|g|g|g|g]; cbn [pinv cn rs wfhd] in *; auto.
+      destruct Hpp as [H1 H2]. split; [exact H1|]. intro Hg. unfold no_running in *.
+      apply Forall_app. split; [apply H2; exact Hg|]. constructor; [|constructor].
+      rewrite H1. cbn. discriminate.
+  - (* handler returns *)
+    rewrite H in Hr. apply Forall_mid in Hr. destruct Hr as [H1 [H2 H3]].
+    constructor; cbn [cn hardc wfhd rs stops]; auto.
+    + apply Forall_mid. split; [exact H1|]. split; [|exact H3].
+      destruct (hardc s) eqn:Eh; rgo r.
+    + eapply Forall_impl; [|exact Hp]. apply pinv_weaken; auto. cbn [rs]. rewrite H.
+      unfold no_running. rewrite !Forall_mid. intros [A [B C]]. repeat split; auto; try (cbn; discriminate).
+  - (* delivery *)
+    rewrite H in Hr. apply Forall_mid in Hr. destruct Hr as [H3 [H4 H5]].
+    constructor; cbn [cn hardc wfhd rs stops]; auto.
+    + apply Forall_mid. split; [exact H3|]. split; [|exact H5].
+      destruct (hardc s) eqn:Eh; [specialize (Hh eq_refl); congruence|].
+      rgo r.
+    + eapply Forall_impl; [|exact Hp]. apply pinv_weaken; auto. cbn [rs]. rewrite H.
+      unfold no_running. rewrite !Forall_mid. intros [A [B C]]. repeat split; auto.
+  - (* call *)
+    constructor; cbn [cn hardc wfhd rs stops]; auto.
+    apply Forall_app. split; [|constructor; [exact I | constructor]].
+    eapply Forall_impl; [|exact Hp]. apply pinv_weaken; auto.
+  - (* quit *)
+    rewrite H in Hp. apply Forall_mid in Hp. destruct Hp as [A [B C]].
+    constructor; cbn [cn hardc wfhd rs stops]; auto.
+    apply Forall_mid. split; [|split; [exact I|]]; (eapply Forall_impl; [|eassumption]); apply pinv_weaken; auto.
+  - (* drain *)
+    rewrite H in Hp. apply Forall_mid in Hp. destruct Hp as [A [B C]].
+    assert (Hcl : cn s = CClosed -> match cn s with CServing => CGoAway1 | c => c end = CClosed)
+      by (intro E; rewrite E; reflexivity).
+    constructor; cbn [cn hardc wfhd rs stops].
+    + intro E. apply Hcl, Hh, E.
+    + eapply Forall_impl; [|exact Hr]. intros r Hr0. destruct (cn s) eqn:Ec; try exact Hr0.
+      destruct (hardc s) eqn:Eh; [specialize (Hh eq_refl); discriminate|]. rgo r.
+    + apply Forall_mid. split; [|split; [exact I|]]; (eapply Forall_impl; [|eassumption]);
+        intros p Hpp; destruct p as [g|g|g|g|g]; cbn [pinv cn rs wfhd] in *; auto;
+        try (destruct g; auto); try (rewrite Hpp; reflexivity);
+        try (destruct Hpp as [Q1 Q2]; split; [rewrite Q1; reflexivity | exact Q2]).
+  - (* Stop closes the transports *)
+    rewrite H in Hp. apply Forall_mid in Hp. destruct Hp as [A [B C]].
+    assert (Hkill : hardc s = false -> Forall (rinv true CClosed) (map kill (rs s))).
+    { intro Eh. apply Forall_forall. intros r Hin. apply in_map_iff in Hin. destruct Hin as [r0 [<- Hin0]].
+      rewrite Forall_forall in Hr. specialize (Hr r0 Hin0). rewrite Eh in Hr.
+      unfold kill. destruct r0 as [h0 x0 c0 a0 lt0]. cbn [act clst hs cxl late] in *.
+      unfold rinv in *. cbn [act clst hs cxl late] in *.
+      destruct a0, c0, h0; cbn [act clst hs cxl late];
+        intuition (try congruence; try discriminate; eauto);
+        try (match goal with H : exists st, _ /\ _ |- _ => destruct H as [? [? ?]]; first [discriminate | congruence] end). }
+    assert (Hps : forall c', c' = CClosed -> Forall (pinv (mkg c' true (wfhd s) (map kill (rs s)) (p1 ++ P2 false :: p2)))
+                                     (p1 ++ P2 false :: p2) \/ True) by (intros; right; exact I).
+    destruct (cn s) eqn:Ec; cbn beta iota.
+    4: { constructor; cbn [cn hardc wfhd rs stops]; auto.
+         apply Forall_mid. split; [|split; [reflexivity|]]; (eapply Forall_impl; [|eassumption]); apply pinv_weaken; auto. }
+    all: destruct (hardc s) eqn:Eh; [specialize (Hh eq_refl); discriminate|].
+    all: constructor; cbn [cn hardc wfhd rs stops]; auto.
+    all: apply Forall_mid; split; [|split; [reflexivity|]]; (eapply Forall_impl; [|eassumption]);
+         intros p Hpp; destruct p as [g|g|g|g|g]; try destruct g; cbn [pinv cn] in *; auto;
+         try (rewrite Ec in Hpp; first [discriminate | destruct Hpp; discriminate]).
+  - (* second GOAWAY *)
+    constructor; cbn [cn hardc wfhd rs stops].
+    + intro E. specialize (Hh E). congruence.
+    + eapply Forall_impl; [|exact Hr]. intros r Hr0.
+      destruct (hardc s) eqn:Eh; [specialize (Hh eq_refl); congruence|]. rgo r.
+    + eapply Forall_impl; [|exact Hp]. intros p Hpp.
+      destruct p as [g|g|g|g|g]; cbn [pinv cn rs wfhd] in *; auto; try (destruct g; auto; congruence);
+        try congruence; destruct Hpp; congruence.
+  - (* last stream done while draining: the connection closes *)
+    constructor; cbn [cn hardc wfhd rs stops]; auto.
+    + unfold all_inactive in H0. rewrite Forall_forall in *. intros r Hin.
+      specialize (Hr r Hin). specialize (H0 r Hin).
+      destruct (hardc s) eqn:Eh; [specialize (Hh eq_refl); congruence|]. rgo r.
+    + eapply Forall_impl; [|exact Hp]. intros p Hpp.
+      destruct p as [g|g|g|g|g]; cbn [pinv cn rs wfhd] in *; auto; try (destruct g; auto);
+        try (destruct Hpp as [Q1 Q2]; split; auto).
+  - (* conns empty *)
+    rewrite H in Hp. apply Forall_mid in Hp. destruct Hp as [A [B C]].
+    constructor; cbn [cn hardc wfhd rs stops]; auto.
+    apply Forall_mid. split; [|split; [exact H0|]]; (eapply Forall_impl; [|eassumption]); apply pinv_weaken; auto.
+  - (* handlersWG.Wait *)
+    rewrite H in Hp. apply Forall_mid in Hp. destruct Hp as [A [B C]].
+    constructor; cbn [cn hardc wfhd rs stops]; auto.
+    apply Forall_mid. split; [|split; [split; [exact B | exact H0]|]];
+      (eapply Forall_impl; [|eassumption]); apply pinv_weaken; auto.
+Qed.
+
+Lemma greach_inv : forall s, greach s -> GInv s.
+Proof.
+  induction 1 as [w | s s' Hr IH Hs]; [|eapply ginv_step; eassumption].
+  constructor; cbn; [discriminate | constructor | constructor].
+Qed.
+
+Lemma graceful_waits : forall s, greach s -> In (P4 true) (stops s) ->
+  cn s = CClosed /\ no_running (rs s).
+Proof.
+  intros s Hr Hin. destruct (greach_inv s Hr) as [_ _ Hp]. rewrite Forall_forall in Hp.
+  destruct (Hp _ Hin) as [H1 H2]. split; [exact H1 | apply H2; reflexivity].
+Qed.
+
+Lemma closed_rpcs : forall s, greach s -> cn s = CClosed -> forall r, In r (rs s) ->
+  (hs r = HRunning -> cxl r = true) /\ clst r <> CNone /\ (forall st, clst r = CHandler st -> hs r = HRet st) /\
+  (hardc s = false -> hs r <> HNone -> exists st, hs r = HRet st /\ clst r = CHandler st /\ cxl r = false).
+Proof.
+  intros s Hr Hc r Hin. destruct (greach_inv s Hr) as [_ Hrs _]. rewrite Forall_forall in Hrs.
+  specialize (Hrs r Hin). rewrite Hc in Hrs. destruct (hardc s) eqn:Eh.
+  - rgo r.
+  - destruct r as [h x c a lt]. unfold rinv in Hrs. cbn [hs cxl clst act late] in *.
+    destruct Hrs as [H1 [H2 [H3 [H4 [H5 [H6 H7]]]]]]. specialize (H4 eq_refl). specialize (H3 eq_refl).
+    destruct H3 as [H3 H8]. subst a x.
+    destruct h as [| |st0].
+    + destruct (H2 eq_refl) as [_ Hn]. split; [discriminate|]. split; [exact Hn|]. split; [exact H7|].
+      intros _ Hx. exfalso. apply Hx. reflexivity.
+    + destruct (H8 ltac:(discriminate) eq_refl) as [st [Hx _]]. discriminate.
+    + destruct (H8 ltac:(discriminate) eq_refl) as [st [Hx Hy]]. subst c.
+      split; [discriminate|]. split; [discriminate|]. split; [exact H7|].
+      intros _ _. exists st. repeat split; assumption.
+Qed.
+
+Lemma accepted_complete : forall s, greach s -> hardc s = false -> In (P4 true) (stops s) ->
+  forall r, In r (rs s) -> hs r <> HNone ->
+  exists st, hs r = HRet st /\ clst r = CHandler st /\ cxl r = false.
+Proof.
+  intros s Hr Hh Hin r Hir Hn. destruct (graceful_waits s Hr Hin) as [Hc _].
+  destruct (closed_rpcs s Hr Hc r Hir) as [_ [_ [_ H]]]. exact (H Hh Hn).
+Qed.
+
+Lemma no_accept_after : forall s, greach s ->
+  (forall r, In r (rs s) -> late r = true -> hs r = HNone) /\
+  (forall g, In (P4 g) (stops s) -> cn s = CClosed) /\
+  (cn s = CDraining \/ cn s = CClosed -> hs (arrive (cn s)) = HNone /\ late (arrive (cn s)) = true).
+Proof.
+  intros s Hr. destruct (greach_inv s Hr) as [_ Hrs Hp]. rewrite Forall_forall in *. repeat split.
+  - intros r Hin Hl. destruct (Hrs r Hin) as [_ [_ [_ [_ [H5 _]]]]]. exact (H5 Hl).
+  - intros g Hin. destruct (Hp _ Hin) as [H1 _]. exact H1.
+  - destruct H as [-> | ->]; reflexivity.
+  - destruct H as [-> | ->]; reflexivity.
+Qed.
+
+Lemma stop_cancels : forall s, greach s ->
+  In (P2 false) (stops s) \/ In (P3 false) (stops s) \/ In (P4 false) (stops s) ->
+  cn s = CClosed /\ forall r, In r (rs s) ->
+  (hs r = HRunning -> cxl r = true) /\ clst r <> CNone /\ (forall st, clst r = CHandler st -> hs r = HRet st).
+Proof.
+  intros s Hr Hin. destruct (greach_inv s Hr) as [_ _ Hp]. rewrite Forall_forall in Hp.
+  assert (Hc : cn s = CClosed).
+  { destruct Hin as [H | [H | H]]; specialize (Hp _ H); cbn [pinv] in Hp; [exact Hp | exact Hp | apply Hp]. }
+  split; [exact Hc|]. intros r Hir. destruct (closed_rpcs s Hr Hc r Hir) as [H1 [H2 [H3 _]]]. auto.
+Qed.
+
+Lemma stop_waits_for_handlers : forall s, greach s -> wfhd s = true -> In (P4 false) (stops s) ->
+  no_running (rs s).
+Proof.
+  intros s Hr Hw Hin. destruct (greach_inv s Hr) as [_ _ Hp]. rewrite Forall_forall in Hp.
+  destruct (Hp _ Hin) as [_ H2]. apply H2. rewrite Hw. reflexivity.
 Qed.
